@@ -38,7 +38,7 @@ func isFailure(class string) bool {
 
 type stageResult struct {
 	class  string
-	site   string // panics: first acmelib frame + panic kind; BADPOS: nofile|outside
+	site   string // panics: first acmelib frame + panic kind; BADPOS: nofile|outside|notokenstart
 	detail string
 	stack  string
 }
@@ -122,6 +122,11 @@ func classifyErr(filename string, text []byte, err error) stageResult {
 	}
 	if !dbccase.PositionInside(text, o.Line, o.Col) {
 		return stageResult{class: clsBadPos, site: "outside", detail: oneLine(err.Error(), 200)}
+	}
+	// the position must be where a token starts, according to a tokenizer that does not share
+	// code with the repository's scanner
+	if !dbccase.PositionAtTokenStart(text, o.Line, o.Col) {
+		return stageResult{class: clsBadPos, site: "notokenstart", detail: oneLine(err.Error(), 200)}
 	}
 	return stageResult{class: clsSyn, detail: oneLine(err.Error(), 200)}
 }
